@@ -154,6 +154,54 @@ class ExitStackStub:
             self._it.call_value(fn, list(args), dict(kwargs), self._ev, None)
 
 
+class PoolStub:
+    """cobra.util.ProcessPool: the initializer runs once (with the model it is given - a worker holds a pickled copy; the
+    stand-in hands over the object itself, which is what the results depend on), tasks run one after the other, and
+    the *unordered* primitive hands the results back in reversed order (any order is admissible: code that consumes
+    them by position gets the wrong rows)."""
+
+    _absint_context = True
+
+    def __init__(self, it, ev, processes=None, initializer=None, initargs=(), **kw):
+        self._it, self._ev = it, ev
+        self.processes, self.initializer, self.initargs = processes, initializer, tuple(initargs or ())
+        self.started = False
+
+    def _absint_enter(self):
+        if self.initializer is not None:
+            self._it.call_value(self.initializer, list(self.initargs), {}, self._ev, None)
+        self.started = True
+        return self
+
+    def _absint_exit(self):
+        self.started = False
+
+    def _run(self, fn, items):
+        return [self._it.call_value(fn, [x], {}, self._ev, None) for x in list(items)]
+
+    def map(self, fn, items, chunksize=None):
+        self._chunk(chunksize)
+        return self._run(fn, items)
+
+    def imap(self, fn, items, chunksize=1):
+        self._chunk(chunksize)
+        return self._run(fn, items)
+
+    def imap_unordered(self, fn, items, chunksize=1):
+        self._chunk(chunksize)
+        return list(reversed(self._run(fn, items)))
+
+    def _chunk(self, chunksize):
+        if chunksize is not None and not (isinstance(chunksize, int) and chunksize >= 1):
+            raise ValueError(f"Chunksize must be 1+, not {chunksize!r}")
+
+    def close(self):
+        pass
+
+    def join(self):
+        pass
+
+
 class ConfigStub:
     """cobra.Configuration() with its documented defaults (a module-level `configuration = Configuration()`)."""
 
@@ -171,11 +219,13 @@ class ConfigStub:
 class Interp:
     def __init__(self, prog, native: Tuple[type, ...], follow: Sequence[str] = (), stubs: Optional[Dict[str, Callable]] = None, globals_: Optional[Dict[str, Any]] = None, max_depth: int = 8):
         self.prog = prog
-        self.native = tuple(native) + (ExitStackStub, ConfigStub)
+        self.native = tuple(native) + (ExitStackStub, ConfigStub, PoolStub)
         self.config = ConfigStub()
         self.follow = set(follow)
         self.stubs = dict(stubs or {})
         self.stubs.setdefault("contextlib.ExitStack", lambda it_, ev, c, a, k: ExitStackStub(it_, ev))
+        for name in ("cobra.util.process_pool.ProcessPool", "cobra.util.ProcessPool"):
+            self.stubs.setdefault(name, lambda it_, ev, c, a, k: PoolStub(it_, ev, *a, **k))
         self.globals = dict(globals_ or {})
         self.depth = 0
         self.max_depth = max_depth
@@ -581,6 +631,12 @@ class Interp:
                     raise Unknown("map over an opaque iterable")
                 return [self.call_value(target, [x], {}, ev, c) for x in list(items)]
         # 2. callables of the stand-in world
+        if isinstance(f, (ast.Subscript, ast.Call, ast.IfExp)):
+            # table[key](...), factory()(...): the callee is a computed value
+            target = ev.eval(f)
+            if isinstance(target, (FuncRef, PartialRef, Closure, LocalFunc)) or (isinstance(target, self.native) and callable(target)):
+                args, kwargs = self.args_of(ev, c)
+                return self.call_value(target, args, kwargs, ev, c)
         if isinstance(f, ast.Attribute):
             recv = ev.eval(f.value)
             if isinstance(recv, self.native) or (isinstance(recv, type) and issubclass(recv, self.native)):
